@@ -187,6 +187,20 @@ def _r1_cells(args):
 
 
 
+def _regcomp_builder(prog):
+    """(function that allocates and emits the program, the call in regcomp that enters it or
+    None when it is regcomp itself)"""
+    rc = prog.func("regcomp", file="regex.c")
+    if any(True for _ in rc.calls("rnode_emit")):
+        return rc, None
+    for c in rc.calls():
+        g = prog.resolve(rc, c["fn"]) if c.get("fn") else None
+        if g is not None and g.file == rc.file and any(True for _ in g.calls("rnode_emit")):
+            return g, c
+    raise AnalysisBroken("regcomp: no call of rnode_emit (nor of a helper that emits)")
+
+
+
 def rule_R1(ctx):
     ctx.begin("R1", floor=3, what="(kind, min, max) cells of estimate vs emitter")
     prog = ctx.prog
@@ -270,15 +284,19 @@ def rule_R1(ctx):
                       "unrolling are unbounded" % (adm[big[0]].decode("latin-1"), big[0][0], big[0][1], NREPS, NREPS))
     # regcomp adds its own instructions
     rc = prog.func("regcomp", file="regex.c")
-    own = len(list(rc.calls("re_insert")))
+    bld, bcall = _regcomp_builder(prog)
+    own = len(list(rc.calls("re_insert"))) + (len(list(bld.calls("re_insert"))) if bld is not rc else 0)
     extra = None
-    for n in rc.walk():
-        if n["k"] == "var" and n.get("init") is not None and any(
-                is_call(c, "rnode_count") for c in calls_in(n["init"])):
-            l = strip_casts(n["init"])
+    nvar = None
+    for n, lv, op, rhs in stores(rc.body):
+        if op in ("=", "init") and rhs is not None and lv["k"] in ("ref", "var") and any(
+                is_call(c, "rnode_count") for c in calls_in(rhs)):
+            l = strip_casts(rhs)
             if l["k"] == "bin" and l["op"] == "+":
-                extra = cval(l["r"])
-            nvar = n["name"]
+                extra = cval(l["r"]) if cval(l["r"]) is not None else cval(l["l"])
+            elif is_call(l, "rnode_count"):
+                extra = 0
+            nvar = lv["name"]
     if extra is None:
         raise AnalysisBroken("regcomp: n = rnode_count(...) + K not found")
     if extra >= own:
@@ -286,17 +304,24 @@ def rule_R1(ctx):
     else:
         ctx.violation("regcomp", "allocation covers regcomp's own instructions",
                       "regcomp inserts %d instructions itself but adds only %d to the estimate" % (own, extra))
-    # the allocation uses that count
+    # the allocation uses that count (in the builder: the parameter bound to it)
+    cnt_name = nvar
+    if bcall is not None:
+        cnt_name = None
+        for p_, a_ in zip(bld.params, bcall["args"]):
+            if key(strip_casts(a_)) == nvar:
+                cnt_name = p_["name"]
     ok_alloc = False
-    for c in rc.calls("malloc"):
-        k_ = key(c["args"][0])
-        if nvar in k_ and "sizeof" not in k_:
+    for c in bld.calls("malloc"):
+        a0 = strip_casts(c["args"][0])
+        if cnt_name and a0["k"] == "bin" and a0["op"] == "*" and any(
+                r_["name"] == cnt_name for r_ in refs(a0)):
             ok_alloc = True
     if ok_alloc:
-        ctx.ok("regcomp", "program allocated with the estimate")
+        ctx.ok(bld.name, "program allocated with the estimate")
     else:
-        ctx.violation("regcomp", "program allocated with the estimate",
-                      "no malloc(n * sizeof(instruction))")
+        ctx.violation(bld.name, "program allocated with the estimate",
+                      "no malloc(n * sizeof(instruction)) with the estimate %s" % (nvar,))
 
 
 def rule_R2(ctx):
@@ -699,9 +724,8 @@ def rule_R10(ctx):
         return
     ctx.ok("rnode_count", "every return <= %d (%d exit paths)" % (capc, len(rets)))
     # (b) regcomp emits only when the estimate is strictly below the cap
-    emits = list(rc.calls("rnode_emit"))
-    if not emits:
-        raise AnalysisBroken("regcomp does not call rnode_emit")
+    bld, bcall = _regcomp_builder(prog)
+    emits = list(rc.calls("rnode_emit")) if bcall is None else [bcall]
     atom_keys = [key(c) for c in rc.calls("rnode_count")]
     if not atom_keys:
         raise AnalysisBroken("regcomp does not call rnode_count")
